@@ -288,6 +288,13 @@ func (vr *variableResolver) resolve(ctx *ExecutionContext) (*Value, error) {
 			if part.typ == varTypeIdent {
 				funcValue := current.MethodByName(part.s)
 				if funcValue.IsValid() {
+					if current.Kind() == reflect.Ptr && current.IsNil() {
+						if _, valueMethod := current.Type().Elem().MethodByName(part.s); valueMethod {
+							// A value-receiver method cannot be called through a nil
+							// pointer (reflect panics); a nil on the way is just empty.
+							return AsValue(nil), nil
+						}
+					}
 					current = funcValue
 					isFunc = true
 				}
